@@ -10,6 +10,7 @@ import json
 import os
 import random
 import sys
+import threading
 import time
 
 VERIF = os.path.dirname(os.path.dirname(os.path.abspath(__file__)))
@@ -78,6 +79,7 @@ class Ctx:
         self.notes = []
         self.inconclusive = []
         self.t0 = time.time()
+        self._lock = threading.RLock()
 
     # ------------------------------------------------------------ sharding
     def mine(self, i):
@@ -117,6 +119,10 @@ class Ctx:
         outcome : outcome class (coverage cell)
         mech    : mechanism key of a disagreement (for known-findings matching)
         """
+        with self._lock:
+            return self._judge(monitor, ok, case, expected, observed, cls, outcome, mech, note)
+
+    def _judge(self, monitor, ok, case, expected, observed, cls, outcome, mech, note):
         m = self.mon(monitor)
         m["reached"] += 1
         if cls is not None:
